@@ -14,6 +14,8 @@ From CG Require Import Spec.Meaning.
 From CG Require Import Spec.KnownC01.
 From CG Require Import Spec.TokAut.
 From CG Require Import Spec.Domain.
+From CG Require Import Spec.DomainCore.
+From CG Require Import Spec.TwoReadings.
 From CG Require Import Spec.Ambig.
 From CG Require Import Model.Tpl.
 From CG Require Import Model.Quote.
@@ -79,6 +81,8 @@ Separate Extraction
   Domain.C01_domain
   Domain.C01_env_ok
   Domain.C01_tail_only
+  DomainCore.C01_domain_core
+  TwoReadings.two_readings
   Ambig.find
   Quote.make_string_constant
   ShellDQ.read
